@@ -88,3 +88,60 @@ pub fn corpus() -> &'static [ShapeRec] {
     static C: std::sync::OnceLock<Vec<ShapeRec>> = std::sync::OnceLock::new();
     C.get_or_init(|| serde_json::from_str(include_str!("../../corpus/sigshapes.json")).expect("corpus/sigshapes.json"))
 }
+
+// ---------------------------------------------------------------------------------------------
+// ed25519 seeds whose PUBLIC KEY bytes have a rare shape (ground once: `enrcheck --grind-edkeys`,
+// committed as corpus/edkeys.json, added to the ed25519 key pool)
+
+#[derive(Clone, Debug, Serialize, Deserialize)]
+pub struct EdKeyRec {
+    pub shape: String,
+    #[serde(with = "crate::hexser::arr32")]
+    pub seed: [u8; 32],
+    #[serde(with = "crate::hexser")]
+    pub pk: Vec<u8>,
+}
+
+pub const ED_SHAPES: [(&str, fn(&[u8]) -> bool); 12] = [
+    // looks like a non-reduced y (>= 2^255 - 19) to a sloppy check: first byte >= ed, last 7f/ff, an ff inside
+    ("y-looks-unreduced", |p| p[0] >= 0xed && p[31] & 0x7f == 0x7f && p[1..31].contains(&0xff)),
+    ("first-ge-ed-last-7f", |p| p[0] >= 0xed && p[31] == 0x7f),
+    ("last-7f", |p| p[31] == 0x7f),
+    ("last-ff", |p| p[31] == 0xff),
+    ("last-80", |p| p[31] == 0x80),
+    ("last-00", |p| p[31] == 0x00),
+    ("first-ff", |p| p[0] == 0xff),
+    ("first-ed", |p| p[0] == 0xed),
+    ("first-0000", |p| p[0] == 0 && p[1] == 0),
+    ("ffff-inside", |p| p.windows(2).any(|w| w == [0xff, 0xff])),
+    ("first-02", |p| p[0] == 0x02),
+    ("first-03", |p| p[0] == 0x03),
+];
+
+pub fn grind_edkeys(max: u64) -> Vec<EdKeyRec> {
+    let mut missing: Vec<usize> = (0..ED_SHAPES.len()).collect();
+    let mut out = Vec::new();
+    let mut j = 0u64;
+    while !missing.is_empty() && j < max {
+        let seed = crate::refmodel::keccak::keccak256(&[b"enrverif-edkeys".as_ref(), &j.to_be_bytes()].concat());
+        j += 1;
+        let pk = crate::refmodel::crypto::ed_pk_from_seed(&seed);
+        let hit: Vec<usize> = missing.iter().copied().filter(|i| (ED_SHAPES[*i].1)(&pk)).collect();
+        for i in &hit {
+            out.push(EdKeyRec { shape: ED_SHAPES[*i].0.into(), seed, pk: pk.to_vec() });
+        }
+        missing.retain(|i| !hit.contains(i));
+    }
+    out
+}
+
+pub fn edkeys() -> &'static [EdKeyRec] {
+    static C: std::sync::OnceLock<Vec<EdKeyRec>> = std::sync::OnceLock::new();
+    C.get_or_init(|| {
+        let v: Vec<EdKeyRec> = serde_json::from_str(include_str!("../../corpus/edkeys.json")).expect("corpus/edkeys.json");
+        for r in &v {
+            assert_eq!(crate::refmodel::crypto::ed_pk_from_seed(&r.seed).to_vec(), r.pk, "corpus/edkeys.json: seed/pk mismatch");
+        }
+        v
+    })
+}
